@@ -24,7 +24,7 @@ RULE = ('cases: seeded worlds (SpaceWorld continuous, DiscreteWorld/GridWorld/Li
 ASSUMPTIONS = ['coordinates and leeways are multiples of 1/8 (exact float arithmetic)', 'F5 (wrap seam ignored) is a known finding, not repaired']
 FLOORS = {'quick': {'queries': 12000, 'queries_nonwrap': 6100, 'queries_wrap': 6300, 'on_face_agents': 5000, 'nonempty_answers': 4900,
                     'empty_answers': 2000, 'negative_leeway_queries': 1000, 'axis_leeway_larger': 3000, 'general_leeway_larger': 3000,
-                    'query_outside_world': 2000, 'coincident_pairs': 500, 'reach:Environments.SpaceWorld.get_agents_at': 12000},
+                    'query_outside_world': 2000, 'coincident_pairs': 500, 'agents_with_position_subclass_component': 1000, 'second_world_on_same_model': 300, 'reach:Environments.SpaceWorld.get_agents_at': 12000},
           'thorough': {'queries': 1500000, 'on_face_agents': 400000}}
 EXHAUSTIVE = {}
 
@@ -33,6 +33,15 @@ def fixtures():
     import ECAgent.Core as core
     import ECAgent.Environments as envs
     return core, envs
+
+
+_NEST = {}
+
+
+def _nest_class(envs):
+    if 'cls' not in _NEST:
+        _NEST['cls'] = type('Nest', (envs.PositionComponent,), {'__slots__': ()})
+    return _NEST['cls']
 
 
 def case_world(ctx, case):
@@ -72,6 +81,18 @@ def case_world(ctx, case):
 
     order = []            # resident agents in joining order
     pool = [core.Agent(f'a{j}', model) for j in range(rng.randint(0, 8))]
+    Nest = _nest_class(envs)
+    for a in pool:
+        if rng.random() < 0.25:
+            # a user component derived from PositionComponent (e.g. the agent's nest), attached before the agent joins: it is NOT the position
+            a.add_component(Nest(a, model, *[rnd_coord(k) for k in range(3)]))
+            ctx.count('agents_with_position_subclass_component')
+    if rng.random() < 0.3:
+        # another populated world built on the same model (e.g. burrows next to the surface): its agents are not this world's agents
+        other = envs.SpaceWorld(model, 50.0, 50.0, 50.0, id='OTHER')
+        for j in range(rng.randint(1, 4)):
+            other.add_agent(core.Agent(f'o{j}', model), *[float(rnd_coord(k) if (ext[k] and ext[k] > 0) else 0) for k in range(3)])
+        ctx.count('second_world_on_same_model')
     for a in pool:
         if rng.random() < 0.8:
             env.add_agent(a, *[rnd_coord(k) for k in range(3)])
@@ -115,7 +136,7 @@ def case_world(ctx, case):
                 env.move_to(a, *tgt)
         if len(order) >= 2 and rng.random() < 0.2:
             b, c = rng.sample(order, 2)
-            env.move_to(c, *b[P].xyz())
+            env.move_to(c, *b.components[P].xyz())
             ctx.count('coincident_pairs')
         # the call, with varying argument styles
         style = rng.random()
@@ -130,7 +151,7 @@ def case_world(ctx, case):
             got = env.get_agents_at(q[0], q[1], leeway=L)
         plain, torus = [], []
         for a in order:
-            p = a[P].xyz()
+            p = a.components[P].xyz()
             inp, intor = True, True
             for k in range(3):
                 d = abs(Fraction(p[k]) - Fraction(q[k]))
@@ -162,7 +183,7 @@ def case_world(ctx, case):
         if any(not in_range(k, q[k]) for k in range(3)):
             ctx.count('query_outside_world')
         detail = dict(world=(kind, ext, wrap), query=q, leeway=L, axis_leeways=AL,
-                      population=[(a.id, a[P].xyz()) for a in order], observed=[getattr(a, 'id', repr(a)) for a in got])
+                      population=[(a.id, a.components[P].xyz()) for a in order], observed=[getattr(a, 'id', repr(a)) for a in got])
         check(isinstance(got, list), 'get_agents_at did not return a list', **detail)
         expected = torus if wrap else plain
         ctx.count('nonempty_answers' if expected else 'empty_answers')
@@ -179,11 +200,11 @@ def case_world(ctx, case):
                                     **detail)
         if faced and 0 < len(expected) < len(order):
             nontrivial = True
-            ctx.distinct((kind, tuple(ext), wrap, tuple(a[P].xyz() for a in order), tuple(q), L, tuple(AL)))
+            ctx.distinct((kind, tuple(ext), wrap, tuple(a.components[P].xyz() for a in order), tuple(q), L, tuple(AL)))
     ctx.state((kind, tuple(ext), wrap, len(order)))
     if case['i'] < 3:
         ctx.sample({'kind': 'world', 'i': case['i'], 'world': kind, 'extents': ext, 'wrap': wrap,
-                    'last_query': {'q': q, 'leeway': L, 'axis': AL, 'population': [(a.id, a[P].xyz()) for a in order],
+                    'last_query': {'q': q, 'leeway': L, 'axis': AL, 'population': [(a.id, a.components[P].xyz()) for a in order],
                                    'answer': [a.id for a in got]}})
 
 
